@@ -161,6 +161,8 @@ def build_ann(s, env, spelling=None, preds=None):
     k = s[0]
     if k == "cls":
         return env[s[1]]
+    if k == "custom":  # a user-defined type object supplied by the check through env["__custom__"]
+        return env["__custom__"][s[1]]
     if k == "obj":
         return typing.Any if sp.get("obj") == "any" else object
     if k == "union":
